@@ -454,3 +454,85 @@ func exprStr(fset *token.FileSet, e ast.Node) string {
 	}
 	return s
 }
+
+// ---- role-based anchor resolution (DESIGN §2.2): find a declaration by what it is, not by its name ----
+
+// FindDecl returns the first function declaration of the package for which pred holds (stable order).
+func (p *Prog) FindDecl(rel string, pred func(fd *ast.FuncDecl, info *types.Info) bool) *ast.FuncDecl {
+	pk := p.ByRel[rel]
+	if pk == nil {
+		return nil
+	}
+	for _, f := range pk.Syntax {
+		for _, d := range f.Decls {
+			if fd, ok := d.(*ast.FuncDecl); ok && fd.Body != nil && pred(fd, pk.TypesInfo) {
+				return fd
+			}
+		}
+	}
+	return nil
+}
+
+// paramTypes / resultTypes render the declared types of a function.
+func paramTypes(fd *ast.FuncDecl, info *types.Info) []string {
+	var out []string
+	if fd.Type.Params == nil {
+		return out
+	}
+	for _, fl := range fd.Type.Params.List {
+		n := len(fl.Names)
+		if n == 0 {
+			n = 1
+		}
+		for i := 0; i < n; i++ {
+			out = append(out, types.TypeString(info.TypeOf(fl.Type), nil))
+		}
+	}
+	return out
+}
+
+func resultTypes(fd *ast.FuncDecl, info *types.Info) []string {
+	var out []string
+	if fd.Type.Results == nil {
+		return out
+	}
+	for _, fl := range fd.Type.Results.List {
+		n := len(fl.Names)
+		if n == 0 {
+			n = 1
+		}
+		for i := 0; i < n; i++ {
+			out = append(out, types.TypeString(info.TypeOf(fl.Type), nil))
+		}
+	}
+	return out
+}
+
+func hasSuffixAny(l []string, suffix string) bool {
+	for _, s := range l {
+		if strings.HasSuffix(s, suffix) {
+			return true
+		}
+	}
+	return false
+}
+
+// ssaOf maps a declaration to its SSA function.
+func (p *Prog) ssaOf(fd *ast.FuncDecl) *ssa.Function {
+	pk := p.pkgOf[fd]
+	if pk == nil {
+		return nil
+	}
+	obj, ok := pk.TypesInfo.Defs[fd.Name].(*types.Func)
+	if !ok {
+		return nil
+	}
+	return p.SSA().FuncValue(obj)
+}
+
+// handlerByParam: the method of server.Server whose second parameter type ends with the given suffix.
+func (p *Prog) handlerByParam(suffix string) *ast.FuncDecl {
+	return p.FindDecl("internal/server", func(fd *ast.FuncDecl, info *types.Info) bool {
+		return recvTypeName(fd) == "Server" && hasSuffixAny(paramTypes(fd, info), suffix)
+	})
+}
